@@ -378,6 +378,40 @@ func present(s *spec, w *opdrv.World, id string, rq *request) proof {
 		}
 		// (a subject mismatch is a valid credential of the issuer when the application configured a permissive check)
 		p.validAssertion, p.badAssertion = valid, !valid
+	case pBasicRightAssertBad, pPostRightAssertBad:
+		sec, ok := secretOr()
+		if s.Pres == pBasicRightAssertBad {
+			rq.Authorization = basicHeader(id, sec, true)
+			p.rightViaBasic = ok
+		} else {
+			f.Set("client_id", id)
+			f.Set("client_secret", sec)
+			p.viaPost = true
+		}
+		p.rightSecret, p.wrongSecret = ok, !ok
+		// the assertion next to it proves nothing
+		switch s.WrongVar {
+		case 0:
+			setAssertion(f, "x", false)
+		case 1:
+			setAssertion(f, "x", true)
+		default:
+			a, _ := assertion(s, w, id, []assertionKind{akExpired, akOtherKey, akWrongAud}[s.WrongVar-2])
+			setAssertion(f, a, true)
+		}
+		p.badAssertion = true
+	case pBasicWrongAssertValid, pBasicRightAssertValid:
+		a, valid := assertion(s, w, id, akValid)
+		setAssertion(f, a, true)
+		p.validAssertion, p.badAssertion = valid, !valid
+		if s.Pres == pBasicRightAssertValid {
+			sec, ok := secretOr()
+			rq.Authorization = basicHeader(id, sec, true)
+			p.rightSecret, p.wrongSecret, p.rightViaBasic = ok, !ok, ok
+		} else {
+			rq.Authorization = basicHeader(id, s.wrongSecret(), true)
+			p.wrongSecret = true
+		}
 	case pOwnBasicOtherID:
 		sec, ok := secretOr()
 		rq.Authorization = basicHeader(id, sec, true)
